@@ -104,6 +104,8 @@ class Tr:
         self.pats = [(ast.parse(p['py'], mode='eval').body, p) for p in sig['patterns']]
         self.skips = [dump(ast.parse(s).body[0]) for s in sig['typed_skips']]
         self.static = dict((dump(ast.parse(k, mode='eval').body), v) for k, v in sig['static_tests'].items())
+        self.spats = [(ast.parse(p['py']).body[0], p) for p in sig.get('stmt_patterns', [])]
+        self.defs = []
         self.nk = 0
 
     def fresh(self):
@@ -130,6 +132,8 @@ class Tr:
                 return ent['coq'].format(*args), bool(ent.get('raises'))
         if isinstance(n, ast.Name):
             if n.id not in env:
+                if n.id in self.sig.get('globals', {}):
+                    return self.sig['globals'][n.id], False
                 raise Unsupported(n, 'unknown name %r' % n.id)
             return n.id, False
         if isinstance(n, ast.Constant):
@@ -202,6 +206,50 @@ class Tr:
                 if a.name not in self.sig['imports'] or a.asname:
                     raise Unsupported(s, 'import %s' % a.name)
             return self.stmts(rest, env, pins)
+        for pat, ent in self.spats:
+            b = {}
+            if match_pattern(pat, s, b):
+                for nm in ent.get('needs', []):
+                    if nm not in env:
+                        raise Unsupported(s, 'name %r is not bound here' % nm)
+                args = []
+                for k in range(len(b)):
+                    t, r = self.expr(b[k], env)
+                    if r:
+                        raise Unsupported(s, 'raising read nested in a statement pattern')
+                    args.append(paren(t))
+                env2 = dict(env)
+                for nm in ent.get('binds', []):
+                    env2[nm] = 1
+                return ent['coq'].format(*args) + '\n  ' + self.stmts(rest, env2, pins)
+        if isinstance(s, ast.For):
+            h = dump_hash([s])
+            ent = self.sig.get('pinned_loops', {}).get(h)
+            if ent is None:
+                raise Unsupported(s, 'loop is not pinned in the signature (AST hash %s)' % h)
+            for nm in ent['needs']:
+                if nm not in env:
+                    raise Unsupported(s, 'name %r is not bound where the pinned loop starts' % nm)
+            pins.add('loop:' + h)
+            env2 = dict(env)
+            for nm in ent['binds']:
+                env2[nm] = 1
+            return ent['coq'] + '\n  ' + self.stmts(rest, env2, pins) + ')'
+        if isinstance(s, ast.FunctionDef) and s.name in self.sig.get('translated_defs', {}):
+            ent = self.sig['translated_defs'][s.name]
+            if dump(s.args) != dump(ast.parse(ent['def_line']).body[0].args) or s.decorator_list:
+                raise Unsupported(s, 'parameter list of nested function %s changed' % s.name)
+            for nm in ent['closure']:
+                if nm not in env:
+                    raise Unsupported(s, 'name %r is not bound where %s is defined' % (nm, s.name))
+            sub = set()
+            env2 = dict((nm, 1) for nm in ent['closure'] + ent['params'])
+            term = self.stmts(strip_doc(list(s.body)), env2, sub)
+            pins.update('%s/%s' % (s.name, x) for x in sub)
+            self.defs.append('Definition %s %s : %s :=\n  %s.' % (ent['coq'], ent['binders'], ent['ret'], term))
+            env2 = dict(env)
+            env2[s.name] = 1
+            return self.stmts(rest, env2, pins)
         if isinstance(s, ast.FunctionDef):
             want = self.sig['pinned_defs'].get(s.name)
             if want is None:
@@ -305,10 +353,21 @@ def translate(sigpath, repo):
     env = dict((p, 1) for p in sig['params'])
     pins = set()
     term = tr.stmts(strip_doc(list(fn.body)), env, pins)
+    mods = dict((n.name, n) for n in tree.body if isinstance(n, ast.FunctionDef))
+    for name, want in sorted(sig.get('pinned_module_defs', {}).items()):
+        if name not in mods or ast_hash(mods[name]) != want:
+            raise Unsupported(mods.get(name), 'pinned module function %s changed or is missing (expected AST hash %s)' % (name, want))
+    for name, ent in sig.get('translated_defs', {}).items():
+        for h in ent.get('loops', []):
+            if 'loop:' + h not in [x.split('/', 1)[-1] for x in pins]:
+                raise Unsupported(fn, 'pinned loop %s of %s not met' % (h, name))
     missing = (set(sig['pinned_defs']) | set(sig['pinned_branches'])) - pins
     if missing:
         raise Unsupported(fn, 'pinned parts not met: %s' % sorted(missing))
     out = list(sig['header'])
+    for d in tr.defs:
+        out.append('')
+        out.append(d)
     out.append('')
     out.append('Definition %s %s : %s :=' % (sig['coq'], sig['binders'], sig['ret']))
     out.append('  ' + term + '.')
@@ -344,6 +403,14 @@ def main(argv):
             tree = ast.parse(open(os.path.join(repo, sig['source'])).read())
             cls = [n for n in tree.body if isinstance(n, ast.ClassDef) and n.name == sig['class']][0]
             fn = [n for n in cls.body if isinstance(n, ast.FunctionDef) and n.name == sig['method']][0]
+            for n in tree.body:
+                if isinstance(n, ast.FunctionDef) and n.name in sig.get('pinned_module_defs', {}):
+                    print('module def', n.name, ast_hash(n))
+            for n in ast.walk(fn):
+                if isinstance(n, ast.FunctionDef) and n.name in sig.get('translated_defs', {}):
+                    for st in n.body:
+                        if isinstance(st, ast.For):
+                            print('loop in', n.name, dump_hash([st]))
             k = 0
             tr = Tr(sig)
             for st in strip_doc(list(fn.body)):
